@@ -12,6 +12,7 @@
 #include <functional>
 #include <map>
 #include <string>
+#include <type_traits>
 #include <unordered_set>
 #include <vector>
 
@@ -82,7 +83,7 @@ struct Step {
     int op = 0;           // index into the scenario's op table
     uint32_t a = 0, b = 0; // pool slots (interpreted modulo pool size)
     uint64_t k[3] = {};   // positions / counts / selectors (interpreted modulo observable state)
-    int flt = 0;          // attached fault: 0 none, 1 at boundary, 2 boundary+1, 3 max
+    int flt = 0;          // attached fault: 0 none, 1 at boundary, 2 boundary+1, 3 max, 4 valid-modulo-2^k
     int64_t v[4] = {};    // values
 };
 
@@ -694,7 +695,7 @@ inline auto generate(Scenario const& sc, uint64_t seed, Profile const& prof) -> 
         for (auto& v : s.v) {
             v = static_cast<int64_t>(r.below(static_cast<uint64_t>(p.cfg.alpha)));
         }
-        s.flt = (p.cfg.faultPct != 0 && r.pct(static_cast<unsigned>(p.cfg.faultPct))) ? 1 + static_cast<int>(r.below(3)) : 0;
+        s.flt = (p.cfg.faultPct != 0 && r.pct(static_cast<unsigned>(p.cfg.faultPct))) ? 1 + static_cast<int>(r.below(4)) : 0;
         p.steps.push_back(s);
     }
     return p;
@@ -852,11 +853,22 @@ inline auto plan_from_text(std::string const& text, Plan& p, std::string& err) -
 }
 
 // fault distance helper: boundary + {0, 1, max}
+// fault distance helper: boundary + {0, 1}, the maximum, or (flt 4) a value that is valid modulo 2^8 / 2^16 / 2^32 -
+// a guard that compares after truncating to a narrower type lets exactly these through
 inline auto beyond(uint64_t boundary, int flt, uint64_t maxv = ~uint64_t{0}) -> uint64_t
 {
     switch (flt) {
     case 1: return boundary;
     case 2: return boundary + 1;
+    case 4: {
+        uint64_t const low = boundary == 0 ? 0 : boundary - 1; // a valid value
+        for (uint64_t wrap : {uint64_t{1} << 8, uint64_t{1} << 16, uint64_t{1} << 32}) {
+            if (low + wrap >= boundary && low + wrap <= maxv && low + wrap > low) {
+                return low + wrap;
+            }
+        }
+        return maxv;
+    }
     default: return maxv;
     }
 }
